@@ -239,20 +239,31 @@ pub fn parse_module(mut parser: SourceParser) -> Module<()> {
     associated_comments.append(&mut parser.assert_and_consume_operator(TokenOp::RightBrace).1);
     associated_comments.append(&mut parser.assert_and_consume_keyword(Keyword::From).1);
     let import_loc_start = parser.peek().0;
+    // End of the module name. `parser.last_location` cannot be used for it after the loop below: peeking
+    // for a `.` has already moved it over the comments that follow the import.
+    let mut module_name_end = None;
     let imported_module_parts = {
-      let (_, id, mut comments) = parser.assert_and_consume_identifier();
+      let (part_loc, id, mut comments) = parser.assert_and_consume_identifier();
+      if id != PStr::MISSING {
+        module_name_end = Some(part_loc);
+      }
       associated_comments.append(&mut comments);
       let mut collector = vec![id];
       while let Token(_, TokenContent::Operator(TokenOp::Dot)) = parser.peek() {
         associated_comments.append(&mut parser.consume());
-        let (_, id, mut comments) = parser.assert_and_consume_identifier();
+        module_name_end = Some(parser.last_location);
+        let (part_loc, id, mut comments) = parser.assert_and_consume_identifier();
+        if id != PStr::MISSING {
+          module_name_end = Some(part_loc);
+        }
         associated_comments.append(&mut comments);
         collector.push(id);
       }
       collector
     };
     let imported_module = parser.heap.alloc_module_reference(imported_module_parts);
-    let imported_module_loc = import_loc_start.union(&parser.last_location);
+    let imported_module_loc =
+      import_loc_start.union(&module_name_end.unwrap_or(parser.last_location));
     for variable in imported_members.iter() {
       parser.class_source_map.insert(variable.name, imported_module);
     }
